@@ -90,7 +90,7 @@ func NewFastHTTPHandler(h http.Handler) fasthttp.RequestHandler {
 			// Buffered, no Flush() nor Hijack().
 			ctx.SetStatusCode(w.status())
 			haveContentType := false
-			for k, vv := range w.Header() {
+			for k, vv := range w.sentHeader() {
 				if k == fasthttp.HeaderContentType {
 					haveContentType = true
 				}
@@ -119,7 +119,7 @@ func NewFastHTTPHandler(h http.Handler) fasthttp.RequestHandler {
 			ctx.SetStatusCode(w.status())
 
 			haveContentType := false
-			for k, vv := range w.Header() {
+			for k, vv := range w.sentHeader() {
 				// No Content-Length when streaming.
 				if k == fasthttp.HeaderContentLength {
 					continue
@@ -201,6 +201,7 @@ const (
 type writer struct {
 	ctx        *fasthttp.RequestCtx
 	h          http.Header
+	sent       http.Header // h as it was when the header was written
 	statusCode atomic.Int64
 
 	mu           sync.Mutex
@@ -218,6 +219,7 @@ type writer struct {
 
 	flushOnce sync.Once
 	closeOnce sync.Once
+	sentOnce  sync.Once
 }
 
 func acquireWriter(ctx *fasthttp.RequestCtx) *writer {
@@ -256,10 +258,32 @@ func (w *writer) WriteHeader(code int) {
 	if code >= 100 && code <= 199 && code != http.StatusSwitchingProtocols {
 		return
 	}
-	w.statusCode.CompareAndSwap(0, int64(code))
+	if w.statusCode.CompareAndSwap(0, int64(code)) {
+		w.writeHeader()
+	}
+}
+
+// writeHeader fixes the status and the header fields of the response: like
+// net/http, what the handler changes after WriteHeader, the first Write or
+// Flush does not reach the client.
+func (w *writer) writeHeader() {
+	w.sentOnce.Do(func() {
+		w.sent = w.h.Clone()
+		// Without an explicit WriteHeader the status is implied now; a later
+		// WriteHeader call is superfluous and must not change it.
+		w.statusCode.CompareAndSwap(0, int64(w.status()))
+	})
+}
+
+// sentHeader returns the header fields to send.
+func (w *writer) sentHeader() http.Header {
+	w.writeHeader()
+	return w.sent
 }
 
 func (w *writer) Write(p []byte) (int, error) {
+	w.writeHeader()
+
 	select {
 	case <-w.streamReady:
 		return w.pw.Write(p)
@@ -284,6 +308,7 @@ func (w *writer) Write(p []byte) (int, error) {
 }
 
 func (w *writer) Flush() {
+	w.writeHeader()
 	w.flushOnce.Do(func() {
 		select {
 		case w.modeCh <- modeFlushed:
